@@ -43,10 +43,10 @@ BATCH = 6
 QUICK = {
     "verify": ["q3", "exit"],
     "find": ["f_precedence", "f_order"],
-    "gen": {"genq": 62, "gencanonq": 28, "gencache": 8, "sim4": 26},
+    "gen": {"genq": 58, "gencanonq": 24, "gencache": 8, "sim4": 22},
     "sim_num": {"sim4": 120},
     "canon_gen": "gencanonq",
-    "free": {"genq": 10, "sim4": 8},
+    "free": {"genq": 8, "sim4": 6},
     "tlc_workers": 4,
     "tlc_parallel": 4,
     "budget_s": 100,
@@ -295,7 +295,9 @@ def _run(chk: Check, tier: str, P: dict, rnd, work, pool, t_start):
     conformance = []
     by_assignment: dict = {}
     clean_obs = []  # (scenario, observation) pairs without any issue: material for the negative controls
-    for job in jobs:
+    prop_viol = []
+    trace_obs = []  # (scenario, observation) of every conclusive run, forced or not
+    for job in sorted(jobs, key=lambda j: (min((0 if r.get("tag") == "must" else 1) for r in j["scns"]), j["id"])):
         out = results[job["id"]]
         if out["obs"] is None or (out["exception"] and job["mode"] != "main"):
             raise MachineryError(f"replay batch {job['id']} failed: {out['exception']}\n{out['stdout'][-800:]}")
@@ -325,6 +327,7 @@ def _run(chk: Check, tier: str, P: dict, rnd, work, pool, t_start):
                 inconclusive.append((s.key(), s.sched_key(), [t for k, t in issues if k == "machinery"]))
                 continue
             chk.count("traces_validated_against_impl")
+            trace_obs.append((s, o))
             chk.count("evaluations", 1 + len(o["events"]))
             if len([a for a in s.arms if a["o"] in vr.VIOL + ("stuck",)]) >= 1:
                 chk.nontrivial((s.key(), s.sched_key()))
@@ -339,7 +342,7 @@ def _run(chk: Check, tier: str, P: dict, rnd, work, pool, t_start):
             chk.sample({"scenario": s.key(), "schedule": s.sched_key(), "exitcode": o["exitcode"], "required": s.required,
                         "outputs": o["outputs"]})
             if forced:
-                by_assignment.setdefault(s.key(), []).append((s, o))
+                by_assignment.setdefault(s.key(), []).append((s, o, rec))
             if "conformance" in kinds:
                 conformance.append((s.key(), s.sched_key(), [t for k, t in issues if k == "conformance"]))
             if "property" in kinds:
@@ -347,7 +350,7 @@ def _run(chk: Check, tier: str, P: dict, rnd, work, pool, t_start):
                 what = (f"{s.key()} [schedule {s.sched_key()}]: halmos reports {vr.CLASS_OF[o['exitcode']]} (TestResult.exitcode "
                         f"{o['exitcode']}); the property requires {s.required}"
                         + (f"; run_test was left by {o['run_test_exc']}" if o["run_test_exc"] else ""))
-                chk.violation(key, what, {"scenario": rec, "observation": o, "required": s.required})
+                prop_viol.append((len(s.arms), key, what, {"scenario": rec, "observation": o, "required": s.required}))
             elif not kinds and forced:
                 clean_obs.append((s, o, rec))
         # process exit code (property: non-zero iff some selected test did not pass)
@@ -363,16 +366,18 @@ def _run(chk: Check, tier: str, P: dict, rnd, work, pool, t_start):
                               f"halmos._main exit code {out['main_exit']} with test exit codes {codes}",
                               {"codes": codes, "main_exit": out["main_exit"], "scenarios": job["scns"]})
     # order (in)dependence on the real runs: all replays of one assignment must give the same verdict
-    for key, lst in sorted(by_assignment.items()):
-        classes = sorted({vr.CLASS_OF[o["exitcode"]] for _, o in lst})
+    for key, lst in sorted(by_assignment.items(), key=lambda kv: (len(kv[1][0][0].arms), kv[0])):
+        classes = sorted({vr.CLASS_OF[o["exitcode"]] for _, o, _ in lst})
         if len(lst) > 1:
             chk.count("assignments_replayed_in_several_orders")
         if len(classes) > 1:
             s0 = lst[0][0]
-            pairs = [(s.sched_key(), vr.CLASS_OF[o["exitcode"]], o["exitcode"]) for s, o in lst]
+            pairs = [(s.sched_key(), vr.CLASS_OF[o["exitcode"]], o["exitcode"]) for s, o, _ in lst]
             k = KEY_ORDER if (s0.early and any(a["o"] == "stuck" for a in s0.arms)) else f"order-dependent:{key}"
             chk.violation(k, f"{key}: the verdict depends on the order in which threads run: {pairs}; required {s0.required}",
-                          {"assignment": key, "runs": pairs, "scenarios": [json.loads(json.dumps(s.__dict__, default=str)) for s, _ in lst]})
+                          {"assignment": key, "runs": pairs, "scenarios_raw": [r for _, _, r in lst]})
+    for _, key, what, rep in sorted(prop_viol, key=lambda t: (t[0], t[1], t[2])):
+        chk.violation(key, what, rep)
     if conformance:
         txt = "\n".join(f"  {k} [{sk}]: {ts}" for k, sk, ts in conformance[:6])
         raise MachineryError(f"{len(conformance)} replays differ from Verdict.tla's model of the code (update the model):\n{txt}")
@@ -382,11 +387,16 @@ def _run(chk: Check, tier: str, P: dict, rnd, work, pool, t_start):
     if nscn < (100 if tier == "quick" else 1000):
         raise MachineryError(f"only {nscn} scenarios were replayed")
 
-    # ---- 4. negative controls: the binding binds
+    # ---- 4. trace validation (code -> spec): every real run must be a behaviour of Verdict.tla
+    phases["compare"] = round(time.time() - t_start, 1)
+    c05_validate_traces(chk, trace_obs, work, P["tlc_workers"], 4000 if tier == "thorough" else 400)
+    phases["trace_validation"] = round(time.time() - t_start, 1)
+
+    # ---- 5. negative controls: the binding binds
     c05_controls(chk, clean_obs, work, pool, all_recs)
 
     phases["controls"] = round(time.time() - t_start, 1)
-    # ---- 5. TLC verification results
+    # ---- 6. TLC verification results
     for n, f in find_f.items():
         r = f.result()
         chk.add_tlc(r)
@@ -429,6 +439,56 @@ def c05_trace_summary(stdout: str) -> dict:
     steps = len(re.findall(r"^State \d+:", stdout, re.M))
     return {"arms": " ".join(arms[-1].split()) if arms else None, "fl": fl[-1] if fl else None, "code": int(code[-1]) if code else None,
             "trace_length": steps}
+
+
+def c05_validate_traces(chk: Check, trace_obs: list, work, workers: int, limit: int):
+    """Trace_Verdict.tla: per-thread event sequences, order of solver_outputs and exit code of each real run must be
+    reproduced by some interleaving of Verdict's actions.  Three corrupted traces must be rejected."""
+    import copy
+
+    traces, keys = [], []
+    for s, o in trace_obs[:limit]:
+        t = vr.verdict_trace_record(s, o)
+        if t is not None:
+            traces.append(t)
+            keys.append((s.key(), s.sched_key(), o["events"]))
+    if not traces:
+        raise MachineryError("no trace to validate")
+    n = len(traces)
+    controls = {}
+    donor = next((t for t in traces if len(t["main"]) >= 3 and not t["raised"] and t["outputs"]), None)
+    if donor is None:
+        raise MachineryError("no trace suitable for the trace-spec controls")
+    bad = copy.deepcopy(donor)
+    bad["code"] = (bad["code"] + 1) % 6
+    controls["trace:exit-code"] = len(traces) + 1
+    traces.append(bad)
+    bad = copy.deepcopy(donor)
+    bad["main"] = bad["main"][:-1]
+    controls["trace:dropped-event"] = len(traces) + 1
+    traces.append(bad)
+    bad = copy.deepcopy(donor)
+    bad["outputs"][0]["r"] = "unsat" if bad["outputs"][0]["r"] != "unsat" else "unknown"
+    controls["trace:output-field"] = len(traces) + 1
+    traces.append(bad)
+    accepted = set()
+    CH = 1200
+    for b in range(0, len(traces), CH):
+        f = work / f"traces-{b}.json"
+        f.write_text(json.dumps(traces[b:b + CH]))
+        r = run_tlc("Trace_Verdict", "MC_Trace_Verdict.cfg", work=work, env={"C05_TRACES": str(f)}, workers=workers, timeout=3000)
+        if not r.ok:
+            raise MachineryError(f"TLC: Trace_Verdict: {r.violated}\n{r.stdout[-2500:]}")
+        chk.add_tlc(r)
+        accepted |= {b + x["tid"] for x in r.records if isinstance(x, dict) and set(x) == {"tid"}}
+    rejected = [keys[k] for k in range(n) if (k + 1) not in accepted]
+    chk.count("traces_accepted_by_Trace_Verdict", n - len(rejected))
+    if rejected:
+        raise MachineryError(f"{len(rejected)} recorded runs are not behaviours of Verdict.tla (update the model): {rejected[:3]}")
+    for name, tid in controls.items():
+        if tid in accepted:
+            raise MachineryError(f"negative control {name} was accepted by Trace_Verdict.tla")
+    chk.cov.setdefault("negative_controls_rejected", {}).update({k: 1 for k in controls})
 
 
 def c05_controls(chk: Check, clean_obs: list, work, pool, all_recs: dict):
@@ -476,7 +536,7 @@ def c05_controls(chk: Check, clean_obs: list, work, pool, all_recs: dict):
     rejected["wrapper:unknown-as-unsat"] = n
     if n != len(recs):
         raise MachineryError(f"negative control accepted: from_result mapping unknown to unsat was noticed in {n} of {len(recs)} TIMEOUT scenarios")
-    chk.cov["negative_controls_rejected"] = rejected
+    chk.cov.setdefault("negative_controls_rejected", {}).update(rejected)
     for name, n in rejected.items():
         if n == 0:
             raise MachineryError(f"negative control {name} was accepted (no replay rejected it)")
